@@ -440,3 +440,73 @@ func TestC11Regress(t *testing.T) {
 		rec.Case(true, canonJSON(s), func() any { return s }, "regression")
 	}
 }
+
+// TestC11ConfigureRace: a change that lands while NewCache / Configure is still
+// scanning must not be lost (the watch has to exist before the scan starts).
+func TestC11ConfigureRace(t *testing.T) {
+	rec := stats.For("C11", "configure-race")
+	sc := newScratch(t)
+	root := sc.dir()
+	dir := filepath.Join(root, "many")
+	stage := filepath.Join(root, "stage")
+	_ = os.MkdirAll(dir, 0o755)
+	_ = os.MkdirAll(stage, 0o755)
+	nFiles := envInt("VERIF_C11_RACE_FILES", 300)
+	doc := func(i, marker int) []byte {
+		return []byte(fmt.Sprintf(`{"cdiVersion":"0.3.0","kind":"v1.com/gpu","devices":[{"name":"d%04d","containerEdits":{"env":["M=%d"]}}]}`, i, marker))
+	}
+	for i := 0; i < nFiles; i++ {
+		_ = os.WriteFile(filepath.Join(dir, fmt.Sprintf("f%04d.json", i)), doc(i, 0), 0o644)
+	}
+	// how long does one scan take here?
+	t0 := time.Now()
+	probe, _ := cdi.NewCache(cdi.WithSpecDirs(dir), cdi.WithAutoRefresh(false))
+	_ = probe.Refresh()
+	scan := time.Since(t0) / 2
+	iters := envInt("VERIF_C11_RACE_ITERS", 16)
+	idx, _ := shard()
+	waitForInotify()
+	cache, _ := cdi.NewCache(cdi.WithSpecDirs(dir), cdi.WithAutoRefresh(true))
+	undecidedIfNoInotify(t, cache)
+	defer func() { _ = cache.Configure(cdi.WithAutoRefresh(false)) }()
+	for k := 1; k <= iters; k++ {
+		// deterministic spread of delays over the scan (and a little beyond it)
+		delay := time.Duration(int64(scan) * int64((k*7+idx*3)%20) / 16)
+		mode := []string{"Configure", "NewCache"}[k%2]
+		victim := (k * 13) % 8 // one of the first files in scan order: already scanned when the change lands
+		done := make(chan struct{})
+		go func() {
+			defer close(done)
+			time.Sleep(delay)
+			tmp := filepath.Join(stage, "next.json")
+			_ = os.WriteFile(tmp, doc(victim, k), 0o644)
+			_ = os.Rename(tmp, filepath.Join(dir, fmt.Sprintf("f%04d.json", victim)))
+		}()
+		c := cache
+		if mode == "Configure" {
+			_ = cache.Configure(cdi.WithSpecDirs(dir), cdi.WithAutoRefresh(true))
+		} else {
+			waitForInotify()
+			c, _ = cdi.NewCache(cdi.WithSpecDirs(dir), cdi.WithAutoRefresh(true))
+			undecidedIfNoInotify(t, c)
+		}
+		<-done
+		ok, _, _, _ := converge(c, []string{dir}, 10*time.Second)
+		dev := c.GetDevice(fmt.Sprintf("v1.com/gpu=d%04d", victim))
+		if mode == "NewCache" {
+			_ = c.Configure(cdi.WithAutoRefresh(false))
+		}
+		if !ok {
+			got := "<nil>"
+			if dev != nil {
+				got = fmt.Sprint(dev.ContainerEdits.Env)
+			}
+			p := saveReplay("C11", "configure-race", map[string]any{"mode": mode, "delayMicros": delay.Microseconds(), "scanMicros": scan.Microseconds(), "files": nFiles})
+			t.Fatalf("C11 violated: f%04d.json was replaced %v after %s started (one scan takes about %v); 10 s later the cache still has %s, the file says M=%d: the change was lost between the scan and the set-up of the watch\nreplay: %s",
+				victim, delay, mode, scan, got, k, p)
+		}
+		rec.Case(true, fmt.Sprintf("%s/%d/%d", mode, delay.Microseconds(), victim), func() any {
+			return map[string]any{"mode": mode, "delayMicros": delay.Microseconds(), "scanMicros": scan.Microseconds(), "files": nFiles}
+		}, "race:"+mode)
+	}
+}
